@@ -203,12 +203,6 @@ def _table_entry_removed(repo: Repo, tables: List[str]):
     """`del T[X]` / `T.pop(X, ..)` with T bound from one of `tables`."""
 
     def m(fi: FuncInfo, g: GStmt, x: str) -> bool:
-        uses = aux.table_uses(repo, fi)
-        bound = {
-            u.bound: u.tables
-            for u in uses
-            if u.bound and u.method in ("get", "get_or_insert")
-        }
         n = g.node
         cands: List[Tuple[str, ast.expr]] = []
         if isinstance(n, ast.Delete):
@@ -227,7 +221,7 @@ def _table_entry_removed(repo: Repo, tables: List[str]):
         for name, key in cands:
             if src(key) != x:
                 continue
-            ts = bound.get(name)
+            ts = aux.tables_bound_at(repo, fi, name, g)
             if ts and set(ts) & set(tables):
                 # inside a loop over several tables: every member is handled
                 return True
@@ -257,7 +251,7 @@ def ret_sym(ctx: Ctx):
         )
 
 
-@rule("RET.in", ["C03"], "every incoming edge of a retiring block is moved or discarded first", 2)
+@rule("RET.in", ["C03", "C05"], "every incoming edge of a retiring block is moved or discarded first", 2)
 def ret_in(ctx: Ctx):
     for fi, site, x in _sites(ctx):
         check_site(
@@ -266,7 +260,7 @@ def ret_in(ctx: Ctx):
         )
 
 
-@rule("RET.out", ["C03"], "every outgoing edge of a retiring or emptied block is moved or discarded first", 3)
+@rule("RET.out", ["C03", "C05"], "every outgoing edge of a retiring or emptied block is moved or discarded first", 3)
 def ret_out(ctx: Ctx):
     for fi, site, x in _sites(ctx) + shrink_sites(ctx.repo):
         check_site(
